@@ -42,6 +42,24 @@ type ChanPlan struct {
 	RecvDelayUs  [2]int `json:"recv_delay_us"` // lazy receivers: [client side, server side]
 	SrvChanCtx   bool   `json:"srv_chan_ctx"`  // the handler uses its channel context for Send/Receive
 	Victim       bool   `json:"victim,omitempty"`
+	// double end: the other side ("Y") also ends the channel on its own, after YEndRecv messages,
+	// so that both ends race. YEnd is 1+kind of Y's ending action (0: Y only reacts).
+	YEnd     int `json:"y_end,omitempty"`
+	YEndRecv int `json:"y_end_recv,omitempty"`
+	// CancelSend: an ending side does not wait for its own senders; it cancels their context as soon
+	// as its receiver has what it waits for, joins them, and ends the channel with its data unsent.
+	CancelSend bool `json:"cancel_send,omitempty"`
+}
+
+// sideEnd returns the ending action of one side (-1: none) and how many messages it waits for.
+func (c *ChanPlan) sideEnd(client bool) (kind, limit int) {
+	if c.enderIsClient() == client {
+		return c.End, c.EndRecv
+	}
+	if c.YEnd > 0 {
+		return c.YEnd - 1, c.YEndRecv
+	}
+	return -1, -1
 }
 
 func (c *ChanPlan) enderIsClient() bool { return c.End == EndClientClose || c.End == EndClientFree }
@@ -82,8 +100,11 @@ type dirState struct {
 	bySender  [2][]int // msgs indices per sender
 	nextSeq   [2]int   // receiver: next expected per-sender sequence
 	recvCount int
+	cursor    int // single sender: index after the last matched message
 	sendOK    []bool
 	sendTried []bool
+	sendDone  []bool
+	got       []bool
 	sendSt    []string
 	ended     bool   // receiver saw a non-OK status
 	endSt     string // that status
@@ -113,6 +134,7 @@ type flowRun struct {
 	strayHandlers    int
 	samples          []string
 	errorsAtTeardown int
+	panicsAtTeardown int
 	tornDown         bool
 	stranded         int
 }
@@ -129,6 +151,8 @@ func newFlowRun(p *FlowPlan) *flowRun {
 			}
 			ds.sendOK = make([]bool, len(ds.msgs))
 			ds.sendTried = make([]bool, len(ds.msgs))
+		ds.sendDone = make([]bool, len(ds.msgs))
+		ds.got = make([]bool, len(ds.msgs))
 			ds.sendSt = make([]string, len(ds.msgs))
 			cs.d[dir] = ds
 		}
@@ -159,7 +183,13 @@ func (r *flowRun) checkRecv(cs *chanState, dir int, data []byte) {
 	twoSenders := len(ds.bySender[1]) > 0
 	var k int
 	if !twoSenders {
-		k = ds.recvCount
+		// the next expected message is the next one whose Send has not definitively failed;
+		// a message whose Send returned a non-OK status may or may not have gone out
+		k = ds.cursor
+		for k < len(ds.msgs) && ((ds.sendDone[k] && !ds.sendOK[k]) || !ds.sendTried[k]) && !bytes.Equal(r.content(cs, dir, k), data) {
+			k++
+		}
+		ds.cursor = k + 1
 		if k >= len(ds.msgs) {
 			simrt.Fail("C03-extra-message", "channel %d dir %d: received message #%d (%d bytes) but only %d were ever sent: %s",
 				cs.idx, dir, k, len(data), len(ds.msgs), r.classify(cs, dir, data))
@@ -169,6 +199,14 @@ func (r *flowRun) checkRecv(cs *chanState, dir int, data []byte) {
 		if !ok || h.nonce != r.plan.Nonce || h.ch != cs.idx || h.dir != dir || h.sender > 1 {
 			simrt.Fail("C03-corrupt", "channel %d dir %d: message #%d (%d bytes) has a foreign or damaged header: %s",
 				cs.idx, dir, ds.recvCount, len(data), r.classify(cs, dir, data))
+		}
+		for q := ds.nextSeq[h.sender]; q < h.seq && q < len(ds.bySender[h.sender]); q++ {
+			kk := ds.bySender[h.sender][q]
+			if (ds.sendDone[kk] && !ds.sendOK[kk]) || !ds.sendTried[kk] {
+				ds.nextSeq[h.sender] = q + 1 // a Send that failed: its message may be missing
+			} else {
+				break
+			}
 		}
 		if h.seq != ds.nextSeq[h.sender] {
 			simrt.Fail("C03-order", "channel %d dir %d sender %d: got sequence %d, expected %d (duplicate, loss or reordering)",
@@ -188,6 +226,7 @@ func (r *flowRun) checkRecv(cs *chanState, dir int, data []byte) {
 	if !ds.sendTried[k] {
 		simrt.Fail("C03-phantom", "channel %d dir %d: message #%d was received before it was ever passed to Send", cs.idx, dir, k)
 	}
+	ds.got[k] = true
 	ds.recvCount++
 }
 
@@ -245,51 +284,68 @@ func (r *flowRun) runChannelClient(cs *chanState, open opener) {
 		return
 	}
 
-	var g group
+	var g, gr group
 	nData := len(cp.C2S)
+	myEnd, limit := cp.sideEnd(true)
+	sctx := async.Context(r.bg)
+	var scancel async.CancelContext
+	if cp.CancelSend && myEnd >= 0 {
+		scancel = async.NewContext()
+		sctx = scancel
+	}
 	for s := 0; s < 2; s++ {
 		if len(cs.d[0].bySender[s]) == 0 {
 			continue
 		}
 		s := s
 		g.goTask(fmt.Sprintf("ch%d-csend%d", cs.idx, s), func() {
+			if s == 1 && scancel != nil {
+				// the opening message (sender 0) is never abandoned half-way: a cancelled open would
+				// leave a channel the peer has never heard of
+				simrt.WaitCond("flow.wait-open", func() bool { return cs.d[0].sendDone[0] })
+			}
 			for _, k := range cs.d[0].bySender[s] {
 				if k >= nData {
 					break // closing payload is sent by the end action
 				}
-				if !r.sendOne(cs, 0, k, func(b []byte) status.Status { return ch.Send(r.bg, b) }, "Send") {
+				c := sctx
+				if k == 0 {
+					c = r.bg // the opening message is never abandoned: the handler must start
+				}
+				if !r.sendOne(cs, 0, k, func(b []byte) status.Status { return ch.Send(c, b) }, "Send") {
 					return
 				}
 			}
 		})
 	}
-	limit := -1
-	if isX {
-		limit = cp.EndRecv
-	}
-	g.goTask(fmt.Sprintf("ch%d-crecv", cs.idx), func() {
+	gr.goTask(fmt.Sprintf("ch%d-crecv", cs.idx), func() {
 		r.recvLoop(cs, 1, ch, r.bg, limit, cp.RecvDelayUs[0], false)
 	})
+	gr.wait("flow.client.join-recv")
+	if scancel != nil {
+		scancel.Cancel()
+	}
 	g.wait("flow.client.join")
+	if scancel != nil {
+		scancel.Free()
+	}
 
-	if isX {
-		switch cp.End {
-		case EndClientClose:
-			cs.endAction = "client SendAndClose"
-			if cp.ClosePayload > 0 {
-				r.sendOne(cs, 0, nData, func(b []byte) status.Status { return ch.SendAndClose(r.bg, b) }, "SendAndClose")
-			} else {
-				st := ch.SendAndClose(r.bg, nil)
-				simrt.Logf("ch%d client SendAndClose(nil) -> %s", cs.idx, stName(st))
-				if !st.OK() && !r.plan.Faulty {
-					simrt.Fail("C03-close-failed", "channel %d: SendAndClose(nil) on an open channel returned %s", cs.idx, stName(st))
-				}
+	switch myEnd {
+	case EndClientClose:
+		cs.endAction = "client SendAndClose"
+		if cp.ClosePayload > 0 && isX {
+			r.sendOne(cs, 0, nData, func(b []byte) status.Status { return ch.SendAndClose(r.bg, b) }, "SendAndClose")
+		} else {
+			st := ch.SendAndClose(r.bg, nil)
+			simrt.Logf("ch%d client SendAndClose(nil) -> %s", cs.idx, stName(st))
+			if !st.OK() && !r.plan.Faulty && cp.YEnd == 0 {
+				simrt.Fail("C03-close-failed", "channel %d: SendAndClose(nil) on an open channel returned %s", cs.idx, stName(st))
 			}
-			// drain what is pending (prefix rule applies), until the end status
-			r.recvLoop(cs, 1, ch, r.bg, -1, 0, false)
-		case EndClientFree:
-			cs.endAction = "client Free"
 		}
+		// drain what is pending (prefix rule applies), until the end status
+		r.recvLoop(cs, 1, ch, r.bg, -1, 0, false)
+	case EndClientFree:
+		cs.endAction = "client Free"
 	}
 	simrt.Logf("ch%d client Free", cs.idx)
 	ch.Free()
@@ -305,6 +361,7 @@ func (r *flowRun) sendOne(cs *chanState, dir, k int, send func([]byte) status.St
 	st := send(b)
 	ds.sendSt[k] = stName(st)
 	ds.sendOK[k] = st.OK()
+	ds.sendDone[k] = true
 	simrt.Logf("ch%d d%d %s #%d -> %s", cs.idx, dir, what, k, stName(st))
 	return st.OK()
 }
@@ -386,6 +443,13 @@ func (r *flowRun) handler(ctx mpx.Context, ch mpx.Channel) (ret status.Status) {
 	isX := !cp.enderIsClient()
 	var g group
 	nData := len(cp.S2C)
+	myEnd, limit := cp.sideEnd(false)
+	sctx := hctx
+	var scancel async.CancelContext
+	if cp.CancelSend && myEnd >= 0 {
+		scancel = async.NewContext()
+		sctx = scancel
+	}
 	for s := 0; s < 2; s++ {
 		if len(cs.d[1].bySender[s]) == 0 {
 			continue
@@ -396,32 +460,33 @@ func (r *flowRun) handler(ctx mpx.Context, ch mpx.Channel) (ret status.Status) {
 				if k >= nData {
 					break
 				}
-				if !r.sendOne(cs, 1, k, func(b []byte) status.Status { return ch.Send(hctx, b) }, "Send") {
+				if !r.sendOne(cs, 1, k, func(b []byte) status.Status { return ch.Send(sctx, b) }, "Send") {
 					return
 				}
 			}
 		})
 	}
-	limit := -1
-	if isX {
-		limit = cp.EndRecv
-	}
 	r.recvLoop(cs, 0, ch, hctx, limit, cp.RecvDelayUs[1], cp.SrvChanCtx)
+	if scancel != nil {
+		scancel.Cancel()
+	}
 	g.wait("flow.handler.join")
+	if scancel != nil {
+		scancel.Free()
+	}
 
-	if !isX {
+	switch myEnd {
+	case -1:
 		simrt.Logf("ch%d handler return (peer ended)", cs.idx)
 		return status.OK
-	}
-	switch cp.End {
 	case EndServerClose:
 		cs.endAction = "handler SendAndClose"
-		if cp.ClosePayload > 0 {
+		if cp.ClosePayload > 0 && isX {
 			r.sendOne(cs, 1, nData, func(b []byte) status.Status { return ch.SendAndClose(hctx, b) }, "SendAndClose")
 		} else {
 			st := ch.SendAndClose(hctx, nil)
 			simrt.Logf("ch%d handler SendAndClose(nil) -> %s", cs.idx, stName(st))
-			if !st.OK() && !r.plan.Faulty {
+			if !st.OK() && !r.plan.Faulty && cp.YEnd == 0 {
 				simrt.Fail("C03-close-failed", "channel %d: handler SendAndClose(nil) on an open channel returned %s", cs.idx, stName(st))
 			}
 		}
@@ -458,26 +523,32 @@ func (r *flowRun) checkComplete(res *simrt.Result) (out []simrt.Violation) {
 			add("C20-handler-count", "channel %d was handed to the handler %d times", cs.idx, cs.handlers)
 			continue
 		}
+		if cp.YEnd > 0 {
+			continue // both sides end on their own: only the prefix rule (checked online) applies
+		}
 		// direction X -> Y must be complete
 		dx := 1
 		if cp.enderIsClient() {
 			dx = 0
 		}
 		ds := cs.d[dx]
-		sent := 0
+		sent, missing := 0, -1
 		for k := range ds.msgs {
 			if ds.sendOK[k] {
 				sent++
-			} else if ds.sendTried[k] {
+				if !ds.got[k] && missing < 0 {
+					missing = k
+				}
+			} else if ds.sendTried[k] && !cp.CancelSend {
 				add("C03-send-failed", "channel %d dir %d: Send #%d by the side that ends the channel returned %s on a healthy connection", cs.idx, dx, k, ds.sendSt[k])
 			}
 		}
 		if !ds.ended {
 			add("C03-no-end", "channel %d dir %d: the receiver never observed an end status", cs.idx, dx)
 		}
-		if ds.recvCount != sent {
-			add("C03-incomplete", "channel %d dir %d (%s): the receiver read until %q and got %d of the %d messages whose Send returned OK",
-				cs.idx, dx, cs.endAction, ds.endSt, ds.recvCount, sent)
+		if missing >= 0 {
+			add("C03-incomplete", "channel %d dir %d (%s): the receiver read until %q and got %d messages, but message #%d (and possibly more) of the %d whose Send returned OK never arrived",
+				cs.idx, dx, cs.endAction, ds.endSt, ds.recvCount, missing, sent)
 		}
 		// the other direction: X received at least what it waited for (else it would have hung)
 		dy := 1 - dx
